@@ -145,9 +145,33 @@ const c12C = c12A + "@bad = global i32* @undefined\n"
 const c12C2 = c12A + "@bad = global %undefinedtype* null\n@bad2 = global i32* @undefined2\n$c1 = comdat any\n"
 const c12C3 = "define void @f() {\n  br label %nowhere\n}\n" + c12B
 
+// type definitions that name other type definitions: chains of aliases of every kind of type, (LLVM
+// wants each alias after the type it names; the translator resolves them through an index).
+const c12T = `%e1 = type i32
+%e2 = type %e1
+%e3 = type %e2
+%v1 = type <2 x i8>
+%v2 = type %v1
+%p1 = type i8*
+%p2 = type %p1
+%p3 = type %p2*
+%s1 = type { %e3, %v2 }
+%b1 = type i1
+%b2 = type %b1
+@a = global %e3 7
+@b = global %v2 <i8 1, i8 2>
+@c = global %p3 null
+@d = global %s1 zeroinitializer
+@e = global %b2 true
+define %e3 @f(%e2 %x, %b2 %c) {
+  %r = select %b2 %c, %e2 %x, %e1 5
+  ret %e3 %r
+}
+`
+
 var c12inputs = []struct {
 	name, text string
-}{{"A", c12A}, {"B", c12B}, {"C-rejected", c12C}, {"C2-rejected-2faults", c12C2}, {"C3-rejected", c12C3}, {"P1", c13saltedN(c13P1, 7)}, {"P2", c13saltedN(c13P2, 7)}, {"U-undefined-attrgroups", c12U}}
+}{{"A", c12A}, {"B", c12B}, {"C-rejected", c12C}, {"C2-rejected-2faults", c12C2}, {"C3-rejected", c12C3}, {"P1", c13saltedN(c13P1, 7)}, {"P2", c13saltedN(c13P2, 7)}, {"U-undefined-attrgroups", c12U}, {"T-type-alias-chains", c12T}}
 
 // c12outcome parses text and returns "ERR" (rejected) or the printed module.
 func c12outcome(parse func() (*ir.Module, error)) string {
